@@ -17,6 +17,7 @@ import CatiiProofs.MaskGenBridge
 import CatiiProofs.ShiftGenBridge
 import CatiiProofs.AppendGenBridge
 import CatiiProofs.FilteredGenBridge
+import CatiiProofs.QueriesGenBridge
 /-!
 # C06 — index operations track NumPy on the dense array over any history
 
@@ -604,6 +605,21 @@ the item's value in the item's column -/
 theorem forced_items_are_where (i : IIndex) (h : WF i) (hnd : i.ndim ≤ 2) (x : Key × Rows) (hx : x ∈ itemsForce i)
     (r : Nat) : r ∈ x.2 ↔ r < i.nrows ∧ denseAt i r (x.1.drop 1) = val0 x.1 :=
   itemsForce_spec i h hnd x hx r
+
+/-- the forced queries as REGENERATED from the source on every run (`Gen.getGen`, `Gen.itemsForceGen`,
+tools/translate_queries.py): `get(key, force=True)` lists exactly the rows where column `key[1:]` of the dense array equals
+`key[0]` - listed value or common value - and every pair of `items(force=True)` lists exactly the rows holding its value in
+its column -/
+theorem generated_forced_get_is_where (i : IIndex) (h : WF i) (hnd : i.ndim ≤ 2) (k : Key) (hk : k.length = i.ndim)
+    (hhi : k.drop 1 ∈ hiCells (i.shape.drop 1)) (r : Nat) :
+    r ∈ (Gen.getGen i k true).getD [] ↔ r < i.nrows ∧ denseAt i r (k.drop 1) = val0 k := by
+  rw [gen_get_eq i k true h.arity hnd hk]
+  exact getKey_force i h hnd k hk hhi r
+
+theorem generated_forced_items_are_where (i : IIndex) (h : WF i) (hnd : i.ndim ≤ 2) (x : Key × Rows)
+    (hx : x ∈ Gen.itemsForceGen i) (r : Nat) : r ∈ x.2 ↔ r < i.nrows ∧ denseAt i r (x.1.drop 1) = val0 x.1 := by
+  rw [gen_itemsForce_eq i h.arity hnd] at hx
+  exact itemsForce_spec i h hnd x hx r
 
 /-! Non-vacuity -/
 example : WF ⟨[([1], [0, 2]), ([2], [1])], 0, [4]⟩ := wf_sound _ (by decide)
